@@ -143,3 +143,51 @@ func VH_C06_two_handles() {
 	h1.RUnlock()
 	verifReach("end")
 }
+
+// C08 on the real unix pager: a writer grows the file after the handle mapped
+// it; the pages added by that commit must be readable in the next transaction.
+//verif:prop C08
+//verif:witnesses 4
+//verif:bounds file of 1 page at open (empty schema); a commit adds a table whose root is the new page 2 (row value symbolic) and bumps the counters; real filePager over the ghost file
+func VH_C08_growth() {
+	const name = "/tmp/vh-c08-grow.db"
+	f := VerifNewFile(512)
+	content := make([]byte, 1024)
+	copy(content, f.Page(1))
+	verifSetFile(name, content, 512, 0)
+	verifSetFile(name+"-journal", nil, 0, 1)
+	verifSetForeignLocks(name, false, false, false, false)
+	d, err := OpenFile(name)
+	verifNoErr(err, "open")
+	verifNoErr(d.RLock(), "first transaction")
+	names, err := d.Tables()
+	verifAssert(err == nil && len(names) == 0, "empty schema at first")
+	d.RUnlock()
+
+	// the commit: page 2 appended, sqlite_master gets a row, counters change
+	root := f.AddPage()
+	v := verifInt64()
+	f.Master([]VerifMasterRow{{Typ: "table", Name: "t", Tbl: "t", Root: root, SQL: "CREATE TABLE t (a)"}})
+	f.TableLeaf(root, []int64{1}, 1, [][]byte{VerifRecord(v)})
+	f.SetCounters(2, 2)
+	copy(content, f.Page(1))
+	copy(content[512:], f.Page(2))
+	verifSetFile(name, content, 1024, 0)
+
+	verifNoErr(d.RLock(), "second transaction")
+	t, err := d.Table("t")
+	verifNoErr(err, "the new table is visible")
+	if err == nil {
+		var got []int64
+		err = t.Scan(func(_ int64, r Record) bool {
+			n, _ := r[0].(int64)
+			got = append(got, n)
+			return false
+		})
+		verifNoErr(err, "pages added by the commit are readable")
+		verifAssert(len(got) == 1 && got[0] == v, "the committed row is returned")
+	}
+	d.RUnlock()
+	d.Close()
+	verifReach("end")
+}
